@@ -83,9 +83,17 @@ class C15(Prop):
     assumptions = ["asyncio.Semaphore fairness and wake-up order are assumed; function-node bodies and interrupt handlers take a permit (the latter since the repair recorded as C15-X1)"]
 
     def cases(self, rng: random.Random, tier: str) -> Iterable[dict]:
+        forced_map = 5      # whatever the seed: runner.map under a limit of 2-3 over 3-4 items that complete OUT of dispatch order
         while True:
             s = gen_shape(rng)
             program = s["program"]
+            if forced_map:
+                if s["interrupts"] or any(n.get("mapOver") for g in program for n in g["nodes"]):
+                    continue
+                forced_map -= 1
+                yield {"program": program, "depth": s["depth"], "top_map": True, "items": rng.randint(3, 4), "k": rng.choice([2, 3]),
+                       "policy": rng.choice(["lifo", "random"]), "seed": rng.randint(0, 10**6), "prior": None}
+                continue
             # inputs: mapping nodes along the path receive lists: give every graph input `x` a list when the ROOT maps, else scalar
             top_map = rng.random() < 0.3 and not s["interrupts"]
             yield {"program": program, "depth": s["depth"], "top_map": top_map, "items": rng.randint(1, 4), "k": rng.randint(1, 4),
